@@ -169,6 +169,22 @@ def run_case(ctx, dsc):
         ctx.check_prop("transform-batch-indep", tuple(t2.shape) == tuple(t.shape) and dev <= 1e-5 * scale_t, dsc,
                        {"maxdev": dev, "bs": bs, "bs2": bs2})
     cr.batch_size = bs
+    # inputs of ANOTHER spatial size than the fitted images (added after a seeded sticky fit-time resize was missed):
+    # the coefficients are those of the activation of the input as given
+    for tag, x_o in (("cropped", imgs[:2, :, :max(3, H - 2), :max(3, W - 1)]), ("fit-crops", _np_to_t(crops[:3]))):
+        dd = dict(dsc, other_size=tag)
+        ok, t3 = ctx.impl_call(dd, lambda: cr.transform(x_o))
+        if not ok:
+            continue
+        with torch.no_grad():
+            a_o = ext(x_o)
+        a_o = (a_o.permute(0, 2, 3, 1) if spatial else a_o).numpy()
+        want3 = reducer.transform(a_o.reshape(-1, a_o.shape[-1]).astype(reducer.components_.dtype)).reshape(a_o.shape[:-1] + (r,))
+        good = tuple(np.shape(t3)) == tuple(want3.shape)
+        dev = float(np.abs(np.asarray(t3) - want3).max()) if good else float("inf")
+        ctx.check_prop("transform-other-size-is-nmf-of-activation", good and dev <= 1e-4 * max(1.0, float(np.abs(want3).max())), dd,
+                       {"got": list(np.shape(t3)), "want": list(want3.shape), "maxdev": dev})
+    ext.calls = []
 
     # ---- head chosen after the fit -------------------------------------------------------------
     bank = np.array(cr.factorization.concept_bank_w, dtype=np.float64)
